@@ -366,6 +366,8 @@ static void op_vec(void)
     else if (!strcmp(op, "SortIncreasing")) { esl_vec_FSortIncreasing(x, n); out_fvec(x, n); }
     else if (!strcmp(op, "SortDecreasing")) { esl_vec_FSortDecreasing(x, n); out_fvec(x, n); }
     else if (!strcmp(op, "Reverse"))  { float *r = malloc(4*n + 4); esl_vec_FReverse(x, r, n); out_fvec(r, n); free(r); }
+    else if (!strcmp(op, "ReverseInPlace")) { esl_vec_FReverse(x, x, n); out_fvec(x, n); }
+    else if (!strcmp(op, "CDFInPlace")) { esl_vec_FCDF(x, n, x); out_fvec(x, n); }
     else if (!strcmp(op, "Scale"))    { esl_vec_FScale(x, n, sf); out_fvec(x, n); }
     else if (!strcmp(op, "Increment")){ esl_vec_FIncrement(x, n, sf); out_fvec(x, n); }
     else if (!strcmp(op, "Add"))      { esl_vec_FAdd(x, y, n); out_fvec(x, n); }
@@ -399,6 +401,7 @@ static void op_vec(void)
     else if (!strcmp(op, "SortIncreasing")) { esl_vec_ISortIncreasing(x, n); h_out("ok %s", h_hex(x, 4*n)); }
     else if (!strcmp(op, "SortDecreasing")) { esl_vec_ISortDecreasing(x, n); h_out("ok %s", h_hex(x, 4*n)); }
     else if (!strcmp(op, "Reverse"))  { int *r = malloc(4*n + 4); esl_vec_IReverse(x, r, n); h_out("ok %s", h_hex(r, 4*n)); free(r); }
+    else if (!strcmp(op, "ReverseInPlace")) { esl_vec_IReverse(x, x, n); h_out("ok %s", h_hex(x, 4*n)); }
     else if (!strcmp(op, "Scale"))    { esl_vec_IScale(x, n, (int) h_argi("k", 1)); h_out("ok %s", h_hex(x, 4*n)); }
     else if (!strcmp(op, "Increment")){ esl_vec_IIncrement(x, n, (int) h_argi("k", 1)); h_out("ok %s", h_hex(x, 4*n)); }
     else if (!strcmp(op, "Add"))      { esl_vec_IAdd(x, y, n); h_out("ok %s", h_hex(x, 4*n)); }
@@ -417,6 +420,7 @@ static void op_vec(void)
     else if (!strcmp(op, "SortIncreasing")) { esl_vec_LSortIncreasing(x, n); h_out("ok %s", h_hex(x, 8*n)); }
     else if (!strcmp(op, "SortDecreasing")) { esl_vec_LSortDecreasing(x, n); h_out("ok %s", h_hex(x, 8*n)); }
     else if (!strcmp(op, "Reverse"))  { int64_t *r = malloc(8*n + 8); esl_vec_LReverse(x, r, n); h_out("ok %s", h_hex(r, 8*n)); free(r); }
+    else if (!strcmp(op, "ReverseInPlace")) { esl_vec_LReverse(x, x, n); h_out("ok %s", h_hex(x, 8*n)); }
     else if (!strcmp(op, "Scale"))    { esl_vec_LScale(x, n, h_argi("k", 1)); h_out("ok %s", h_hex(x, 8*n)); }
     else if (!strcmp(op, "Increment")){ esl_vec_LIncrement(x, n, h_argi("k", 1)); h_out("ok %s", h_hex(x, 8*n)); }
     else if (!strcmp(op, "Add"))      { esl_vec_LAdd(x, y, n); h_out("ok %s", h_hex(x, 8*n)); }
